@@ -726,3 +726,46 @@ def l2(ctx):
     if n_cmp < 2:
         raise AnalysisError("only %d comparisons with CONFIG_FILENAME found in the _iterblobs implementations" % n_cmp)
     return obs
+
+
+@rule("C16", "H3", floor=2, kind="S",
+      desc="a collection href handed out is absolute-path and ends in '/': ensure_trailing_slash returns its argument "
+           "only on the path where `href.endswith('/')` held, and something ending in '/' otherwise - the empty "
+           "SCRIPT_NAME of a root WSGI mount becomes '/', not a relative reference that clients resolve against "
+           "whatever URL they asked")
+def h3(ctx):
+    fi = ctx.func("xandikos.webdav.ensure_trailing_slash")
+    cfg = ctx.cfg(fi)
+    du = DefUse(cfg)
+    if not fi.params:
+        raise AnalysisError("ensure_trailing_slash has no parameter")
+    p = fi.params[0]
+    obs = []
+    rets = [n for n in cfg.nodes if n.kind == "return"]
+    if not rets:
+        raise AnalysisError("ensure_trailing_slash: no return")
+    for r in rets:
+        v = r.ast.value if isinstance(r.ast, ast.Return) else r.ast
+        os_ = origins(du, r, v) if v is not None else []
+        for o in os_:
+            if o.kind == "param" and o.name == p and not o.path:
+                conds = cfg.required_conditions(r)
+                held = any(pol and isinstance(t, ast.Call) and isinstance(t.func, ast.Attribute) and t.func.attr == "endswith"
+                           and dotted(t.func.value) == p and len(t.args) == 1 and isinstance(t.args[0], ast.Constant) and t.args[0].value == "/"
+                           for t, pol in conds)
+                obs.append(ctx.ob(held, fi.qualname, "%s:%d" % (fi.module.rel, r.lineno), "argument returned unchanged only if it ends in '/'",
+                                  "return %s  under %s.endswith('/')" % (p, p),
+                                  "ensure_trailing_slash can return its argument although it does not end in '/' (an empty href stays empty): "
+                                  "the base of current-user-principal / home-set hrefs under a root WSGI mount (SCRIPT_NAME '') becomes a "
+                                  "relative reference, which clients resolve against the URL they asked"))
+            elif o.kind == "expr" and o.leaf is not None and not o.path:
+                l = o.leaf
+                ends = (isinstance(l, ast.BinOp) and isinstance(l.op, ast.Add) and isinstance(l.right, ast.Constant) and isinstance(l.right.value, str) and l.right.value.endswith("/")) \
+                    or (isinstance(l, ast.JoinedStr) and l.values and isinstance(l.values[-1], ast.Constant) and str(l.values[-1].value).endswith("/")) \
+                    or (isinstance(l, ast.Constant) and isinstance(l.value, str) and l.value.endswith("/"))
+                if not ends:
+                    raise AnalysisError("ensure_trailing_slash: return value `%s` is not a recognised form" % src(l)[:60])
+                obs.append(ctx.ok(fi.qualname, "%s:%d" % (fi.module.rel, r.lineno), "other results end in '/'", "return %s" % src(l)[:40]))
+            else:
+                raise AnalysisError("ensure_trailing_slash: return value `%s` is not a recognised form" % src(v)[:60])
+    return obs
